@@ -359,10 +359,14 @@ def def_sites(body):
     """local -> list of ('stmt', bi, si, rv) / ('call', bi, term)"""
     d = defaultdict(list)
     for bi, blk in enumerate(body["blocks"]):
+        if blk["cl"]:
+            continue  # unwind/cleanup blocks never produce values that reach a normal return
         for si, st in enumerate(blk["s"]):
+            if "*" in st["d"][1:]:
+                continue  # a write through a pointer does not define the pointer local
             d[st["d"][0]].append(("stmt", bi, si, st))
         t = blk["t"]
-        if t["t"] == "call":
+        if t["t"] == "call" and "*" not in t["d"][1:]:
             d[t["d"][0]].append(("call", bi, None, t))
     return d
 
